@@ -19,14 +19,19 @@ class Oracle:
     def __init__(self, answers):
         self.answers = list(answers)
         self.i = 0
+        self.n_ok = 0
 
     def __call__(self):
         ok = self.answers[self.i] if self.i < len(self.answers) else True
         self.i += 1
 
+        # the threshold is 1000 bytes in every spelling; "<=" counts as crossed
+        self.n_ok += 1 if ok else 0
+        pick = (self.i * 7 + len(self.answers)) % 3
+
         class M:
-            available = 10 ** 12 if ok else 0
-            total = 10 ** 12
+            available = ((1001, 10 ** 12, 5000)[pick]) if ok else ((1000, 999, 0)[pick])
+            total = 2000
         return M
 
 
@@ -44,10 +49,24 @@ def run_history(ld, n, limited, mem, ops, keyed):
     up = src.map(fn)
     with warnings.catch_warnings():
         warnings.simplefilter('ignore')
-        root = ld.core.CacheDataset(up, 1000 if limited else None)
+        old = psutil.virtual_memory
+
+        class AtConstruction:        # what psutil reports while the cache is being set up: 2000 bytes in total, 1200 of them available
+            available, total = 1200, 2000
+        psutil.virtual_memory = lambda: AtConstruction
+        try:
+            # the same threshold (1000 bytes) spelled as a number of bytes, as a share of the total memory, and as a size string
+            spelling = [1000, '50%', '1000 B', ' 50 %', '1000'][(n + len(ops) + len(mem)) % 5]
+            if not limited:
+                root = ld.core.CacheDataset(up, None)
+            elif (len(ops) + n) % 2:
+                root = up.cache(keep_mem_free=spelling)
+            else:
+                root = ld.core.CacheDataset(up, spelling)
+        finally:
+            psutil.virtual_memory = old
         handles = [root]
         oracle = Oracle(mem)
-        old = psutil.virtual_memory
         psutil.virtual_memory = oracle
         outs = []
         iters, ipos = {}, {}
